@@ -29,6 +29,10 @@ func runC01(r *engine.Run) {
 	r.Rule("ERR-dropped", "see C17: the error of every trie / store operation called by the trie operations is looked at")
 	r.Rule("AGREE-split", "see C02: a leaf's prefix and path split one key at one point (two entries whose leaves get the same prefix, path and value would share one stored node, and changing one breaks the other)")
 	r.Rule("WHO-prev", "see C03: a layered store never writes or deletes in the level below (an older version read through the lower store keeps all its nodes)")
+	r.Rule("DEP-linkback", "the key returned by every recursive step of the trie operations (insert, insertLeaf, insertExtension, insertNode, delete and their arms) is installed in the node being rebuilt, handed on, or returned - never only compared")
+	r.Rule("DEP-valuestored", "in insertAtNode and insertAfterPathTraversal every path to a success return passes a call that receives the value being inserted (SetValue, insertLeaf, NewFullNode, the recursive insert)")
+	r.Rule("DEP-rehome", "a clone of a child that replaces its vanished parent (moved one or more levels up) has its Path reassigned before it is inserted, a leaf also its Prefix")
+	r.Rule("DOM-rootinstalled", "every success return of Insert and Delete that follows a trie walk is dominated by setRoot")
 	r.NotDec = append(r.NotDec, "that lookups return the last stored value for every history (path arithmetic, slicing, which child is lifted)", "hex validation of Insert/Delete paths (outside the property's quantifier)")
 	exhU(r)
 	domSize(r)
@@ -41,6 +45,10 @@ func runC01(r *engine.Run) {
 	errGuard(r, "ERR-guard", "ERR-dropped", mptFuncs(r), 15)
 	agreeSplit(r)
 	whoPrev(r)
+	depLinkBackMPT(r, "DEP-linkback")
+	depValueStored(r, "DEP-valuestored")
+	depRehome(r, "DEP-rehome")
+	domRootInstalled(r, "DOM-rootinstalled")
 }
 
 var nodeKinds = []string{"ExtensionNode", "FullNode", "LeafNode"}
